@@ -117,3 +117,86 @@ func realFiles() []seedFile {
 	}
 	return out
 }
+
+// alignedFiles: for each target offset T, one file per format whose ICC carrier (iCCP chunk
+// data / last APP2 segment / ICCP chunk data) ends exactly at file offset T, followed by a body
+// long enough to force further buffer refills.  Targets sit around multiples of the 4096-byte
+// bufio window, where a structure straddles two buffer fills.
+func alignedFiles(r *rng, targets []int) (out []seedFile, profiles [][]byte) {
+	for _, T := range targets {
+		// PNG: zero-filled tEXt padding before iCCP
+		prof := randProfilePayload(r, 200+r.intn(900))
+		pd := randPngDesc(r, true, prof)
+		pd.pre, pd.post, pd.body = []pngChunk{{"tEXt", nil}}, nil, r.bytes(6000+r.intn(3000))
+		d, _ := pd.build()
+		if end := pngIccEnd(d); end > 0 && T > end {
+			pd.pre[0].data = make([]byte, T-end)
+			d2, n2 := pd.build()
+			if pngIccEnd(d2) == T {
+				out = append(out, seedFile{fmt.Sprintf("png-icc-end@%d", T), "png", d2, n2})
+				profiles = append(profiles, prof)
+			}
+		}
+		// JPEG: a COM segment before everything, the ICC segments last before SOS
+		jd := randJpegDesc(r)
+		jd.segsBefore = []jpegSeg{{0xfe, nil}}
+		k := 1 + r.intn(2)
+		szs := make([]int, k)
+		rem := len(prof)
+		for j := 0; j < k; j++ {
+			szs[j] = rem / (k - j)
+			rem -= szs[j]
+		}
+		jd.iccSegs, jd.interleave, jd.iccAfterSOF, jd.body = splitICC(prof, szs), nil, true, r.bytes(6000+r.intn(3000))
+		_, end := jd.build()
+		if T > end && T-end < 65000 {
+			jd.segsBefore[0].data = make([]byte, T-end)
+			d2, n2 := jd.build()
+			if n2 == T {
+				out = append(out, seedFile{fmt.Sprintf("jpeg-icc-end@%d", T), "jpeg", d2, n2})
+				profiles = append(profiles, prof)
+			}
+		}
+		// WebP: the ICCP chunk follows the 30-byte RIFF/VP8X prefix; its length sets the end
+		if T > 60 {
+			wprof := randProfilePayload(r, T-38)
+			wd := randWebpDesc(r, "VP8X", wprof)
+			wd.body = r.bytes(6000 + r.intn(3000))
+			d2, n2 := wd.build()
+			if n2 == T {
+				out = append(out, seedFile{fmt.Sprintf("webp-icc-end@%d", T), "webp", d2, n2})
+				profiles = append(profiles, wprof)
+			}
+		}
+	}
+	return out, profiles
+}
+
+// pngIccEnd: file offset just past the data of the first iCCP chunk (0 if none)
+func pngIccEnd(d []byte) int {
+	for off := 8; off+8 <= len(d); {
+		n := int(uint32(d[off])<<24 | uint32(d[off+1])<<16 | uint32(d[off+2])<<8 | uint32(d[off+3]))
+		if string(d[off+4:off+8]) == "iCCP" {
+			return off + 8 + n
+		}
+		off += 12 + n
+	}
+	return 0
+}
+
+func alignTargets(thorough bool) []int {
+	var ts []int
+	for _, base := range []int{4096, 8192} {
+		for d := -8; d <= 6; d++ {
+			ts = append(ts, base+d)
+		}
+	}
+	if thorough {
+		for _, base := range []int{4096, 8192, 12288, 16384} {
+			for d := -24; d <= 24; d++ {
+				ts = append(ts, base+d)
+			}
+		}
+	}
+	return ts
+}
